@@ -71,13 +71,14 @@ type Hist struct {
 	Opt    HistOpts
 	Failed map[*Obj]bool
 	// Counters for non-triviality rules.
-	FailedKeysRead     int
-	HeldAcrossRotation int
-	FaultsInjected     int
-	FinalizeInSync     int // upload finalised while S was parked in the data sync
-	FinalizeInWrite    int // ... while a syncer was parked in the state write
-	ReleaseInSync      int
-	InflightAtShutdown int
+	FailedKeysRead       int
+	HeldAcrossRotation   int
+	FaultsInjected       int
+	FinalizeInSync       int // upload finalised while S was parked in the data sync
+	FinalizeInWrite      int // ... while a syncer was parked in the state write
+	ReleaseInSync        int
+	InflightAtShutdown   int
+	RotationInStateWrite int
 }
 
 // NewHist creates a history driver.
@@ -376,6 +377,47 @@ func (h *Hist) Actions() map[string]func(*rapid.T) {
 			w.StartR()
 			for i := 0; i < 20 && sy.R != nil && w.CanStepR(); i++ {
 				w.StepR(0)
+			}
+		}
+		// Force a rotation (PopFront) while a syncer is parked inside the
+		// state store, i.e. between GetPersistentState and
+		// NotifyPersistentStateWritten.
+		a["rotateDuringStateWrite"] = func(t *rapid.T) {
+			sy := w.syn()
+			if !(holdsStoreLock(sy.S) || holdsStoreLock(sy.R)) || cfg.Mutable && false {
+				// Try to get a syncer there.
+				switch {
+				case w.CanStepR():
+					w.StepR(0)
+				case sy.R == nil && w.ReleaseWakeupPending():
+					w.StartR()
+				case w.CanStepS():
+					w.StepS(0)
+				case sy.S == nil && !sy.ShutdownDone && w.PutWakeupPending():
+					w.StartS()
+				default:
+					fallback()
+				}
+				return
+			}
+			c.Add("rotateDuringStateWrite")
+			pops := w.St.BL.PopFronts
+			for i := 0; i < 24 && w.St.BL.PopFronts == pops && !w.Closed; i++ {
+				size := cfg.BlockSize()/2 + 1
+				if size > cfg.BlockSize() {
+					size = cfg.BlockSize()
+				}
+				var u *Upload
+				if cfg.Mutable {
+					u = w.StartPut(w.NewACObject(), "", "good", w.ACContent(size), nil, nil)
+				} else {
+					o := w.NewObject(size, Functions[0])
+					u = w.StartPut(o, "", "good", o.Data, nil, nil)
+				}
+				w.FinishPut(u)
+			}
+			if w.St.BL.PopFronts != pops {
+				h.RotationInStateWrite++
 			}
 		}
 		a["drain"] = func(t *rapid.T) {
